@@ -272,10 +272,10 @@ package security
 //@   ensures err == nil ==> len(result) == 32 && fresh(result)
 
 //@ func (*Authenticator).setupStreamEncryption (a, negotiation) (err)
-//@   props C03 C10 C04 C06
+//@   props C03 C10 C04 C06 C05
 //@   requires fresh_stream: a.stream != nil && a.stream.gcm == nil
 //@   assigns negotiation.Encryption, negotiation.sharedSecret, @keyInstall(a.stream)
-//@   ensures reported_is_real: [C03] err == nil ==> negotiation.Encryption == sealingOn(a.stream)
+//@   ensures reported_is_real: [C03 C05] err == nil ==> negotiation.Encryption == sealingOn(a.stream)
 //@   ensures decided_means_sealed: [C03 C10] err == nil && old(negotiation.Encryption) ==> sealingOn(a.stream)
 //@   ensures key_kept_for_session: [C06] err == nil && sealingOn(a.stream) ==> len(negotiation.sharedSecret) == 32
 //@   let ck = ite(negotiation.ClientConfig != nil, negotiation.ClientConfig.ECDHPublicKey, "")
